@@ -59,7 +59,24 @@ static int vfs_ancestors_ok(int i) {
 }
 int vfs_lookup(const char *path) {
   int i = vfs_slot(path);
-  if (i < 0 || vfs[i].kind == VK_ABSENT || !vfs_ancestors_ok(i)) return -1;
+  if (i < 0) {
+    /* "<dir>/." and "<dir>/.." */
+    size_t l = strlen(path);
+    if (l >= 3 && path[l - 1] == '.' && (path[l - 2] == '/' || (path[l - 2] == '.' && path[l - 3] == '/'))) {
+      int up = path[l - 2] == '.';
+      char tmp[64];
+      size_t n = l - (up ? 3 : 2);
+      __CPROVER_assert(n < 63, "bound: path length");
+      for (size_t k = 0; k < n; k++) tmp[k] = path[k];
+      tmp[n] = 0;
+      int d = vfs_slot(tmp);
+      if (d < 0 || vfs[d].kind != VK_DIR || !vfs_ancestors_ok(d)) return -1;
+      if (up) d = vfs[d].parent;
+      return d;
+    }
+    return -1;
+  }
+  if (vfs[i].kind == VK_ABSENT || !vfs_ancestors_ok(i)) return -1;
   return i;
 }
 long vfs_read(int node, char *buf, size_t cap) {
@@ -204,9 +221,11 @@ int scandir(const char *dirp, struct dirent ***namelist, int (*filter)(const str
     if (filter && !filter(e)) { free(e); continue; }
     list[cnt++] = e;
   }
-  /* directory order is unspecified: the model delivers children either in table order or in
-     reverse table order (chosen nondeterministically), so that the caller's sort matters */
-  _Bool rev = nondet_bool();
+  /* directory order is unspecified: the model delivers children in reverse table order (harnesses
+     register names so that neither table order nor its reverse is the byte-wise order), so that the
+     caller's sort matters.  A nondeterministic order made every list slot a symbolic pointer and
+     the symbolic execution of the caller's sort did not finish. */
+  _Bool rev = 1;
   for (int t = 0; t < vfs_n; t++) {
     int i = rev ? vfs_n - 1 - t : t;
     if (vfs[i].parent == d && vfs[i].kind != VK_ABSENT) {
